@@ -22,6 +22,7 @@ import (
 	"crypto"
 	"errors"
 	"fmt"
+	ssi "github.com/nuts-foundation/go-did"
 	"github.com/nuts-foundation/go-did/did"
 	"github.com/nuts-foundation/nuts-node/crypto/hash"
 	"reflect"
@@ -82,11 +83,11 @@ func (r DIDKeyResolver) ResolveKeyByID(keyID string, metadata *ResolveMetadata, 
 	for _, rel := range relationships {
 		localKeyId := rel.ID.String()
 		if localKeyId == keyID {
-			return rel.PublicKey()
+			return publicKey(rel.VerificationMethod)
 		} else if baseUrl != nil && strings.HasPrefix(localKeyId, "#") {
 			localKeyId = *baseUrl + localKeyId
 			if localKeyId == keyID {
-				return rel.PublicKey()
+				return publicKey(rel.VerificationMethod)
 			}
 		}
 	}
@@ -128,11 +129,21 @@ func (r DIDKeyResolver) ResolveKey(id did.DID, validAt *time.Time, relationType 
 	if len(keys) == 0 {
 		return "", nil, ErrKeyNotFound
 	}
-	publicKey, err := keys[0].PublicKey()
+	key, err := publicKey(keys[0].VerificationMethod)
 	if err != nil {
 		return "", nil, err
 	}
-	return keys[0].ID.String(), publicKey, nil
+	return keys[0].ID.String(), key, nil
+}
+
+// publicKey returns the public key of a verification method of a resolved DID document.
+// The document may have been supplied by another party (e.g. did:web): a JsonWebKey2020 method
+// without publicKeyJwk is an error (did.VerificationMethod.PublicKey dereferences the missing key).
+func publicKey(method *did.VerificationMethod) (crypto.PublicKey, error) {
+	if method.Type == ssi.JsonWebKey2020 && method.PublicKeyJwk == nil {
+		return nil, errors.New("verification method has no publicKeyJwk")
+	}
+	return method.PublicKey()
 }
 
 func resolveRelationships(doc *did.Document, relationType RelationType) (relationships did.VerificationRelationships, err error) {
